@@ -25,15 +25,15 @@ def gen_c07(g, lines, k):
     base = 21000 + NONCE * 800 + k * 12
     lip, P, T = "127.0.0.1", base, base + 1
     BP, UP, VP, LP = base + 2, base + 3, base + 4, base + 5
-    no_received = g.pick([None, False, True])
+    no_received = [None, False, True, None][k % 4]
     rcvd = not no_received
     be = "127.0.1.1:%d" % BP
     lines.append("wire start %s" % hx(yaml_cfg("svc.test", lip, P, T, no_received, ["udp://" + be])))
     lines.append("wire bind %s" % hx(be))
     ua, named = "127.0.2.1:%d" % UP, "127.0.2.9:%d" % VP
     lines.append("wire bind %s" % hx(ua)); lines.append("wire bind %s" % hx(named))
-    for tr in ("UDP", "TCP"):
-        rport = g.pick([None, "", "9"])
+    for ti, tr in enumerate(("UDP", "TCP")):
+        rport = [None, "", "9"][(k + ti) % 3]          # every rport shape, deterministically
         recv_spoof = g.pick([None, "1.2.3.4"])
         ps = [("branch", "z9hG4bK" + g.word(ALNUM.upper(), 6, 9))]
         if rport is not None: ps.append(("rport", rport))
